@@ -3,6 +3,7 @@ package props
 import (
 	"fmt"
 	"sort"
+	"strconv"
 
 	"saoverif/mon"
 	"saoverif/world"
@@ -69,6 +70,7 @@ type C04 struct {
 	consumed map[string]sdk.Dec // whole coins taken out of the market account by claims, per provider
 	checks   int64
 	endings  map[string]int64
+	payerOf  map[uint64]string // order id -> account that was charged for it
 }
 
 type holding struct {
@@ -80,7 +82,7 @@ type holding struct {
 }
 
 func NewC04() *C04 {
-	return &C04{clients: map[string]bool{}, hold: map[uint64]*holding{}, earned: map[string]sdk.Dec{}, consumed: map[string]sdk.Dec{}, endings: map[string]int64{}}
+	return &C04{clients: map[string]bool{}, hold: map[uint64]*holding{}, earned: map[string]sdk.Dec{}, consumed: map[string]sdk.Dec{}, endings: map[string]int64{}, payerOf: map[uint64]string{}}
 }
 
 func (m *C04) ID() string { return "C04" }
@@ -220,6 +222,9 @@ func (m *C04) Tx(w *world.World, e *world.TxEvent) {
 			if a, ok := e.Pre.PayAddr[p.Owner]; ok {
 				m.clients[a] = true
 			}
+			if id, ok := world.AttrU64(e.Marks, "new-order", "order-id"); ok && len(got) == 1 {
+				m.payerOf[id] = got[0].From
+			}
 			w.Case("c04:charge:store:size=%d,replica=%d,sponsored=%v", p.Size_, p.Replica, p.PaymentDid != "")
 		case *saotypes.MsgRenew:
 			want := sdk.ZeroInt()
@@ -230,6 +235,7 @@ func (m *C04) Tx(w *world.World, e *world.TxEvent) {
 				}
 				want = want.Add(quote(o.Size_, o.Replica, msg.Proposal.Duration))
 				n++
+				m.payerOf[id] = e.Pre.PayAddr[msg.Proposal.Owner]
 			}
 			payer := e.Pre.PayAddr[msg.Proposal.Owner]
 			got := sdk.ZeroInt()
@@ -255,6 +261,9 @@ func (m *C04) Tx(w *world.World, e *world.TxEvent) {
 		}
 	}
 	m.classify(w, fmt.Sprintf("tx %s at height %d", e.Kind, h), e.Kind, signer, e.Transfers, e.Pre)
+	if e.OK && e.Kind != "claim" {
+		m.refundRecipients(w, fmt.Sprintf("tx %s at height %d", e.Kind, h), e.Transfers, e.Marks, e.Pre, e.Post)
+	}
 	// claims consume accrued income
 	if e.OK && e.Kind == "claim" {
 		if pw, ok := e.Pre.Workers[signer]; ok {
@@ -320,6 +329,7 @@ func (m *C04) Block(w *world.World, e *world.BlockEvent) {
 	h := e.Height
 	m.classify(w, fmt.Sprintf("begin block %d", h), "beginblock", "", e.BeginTransfers, e.Prev)
 	m.classify(w, fmt.Sprintf("end block %d", h), "endblock", "", e.EndTransfers, e.PreEnd)
+	m.refundRecipients(w, fmt.Sprintf("end block %d", h), e.EndTransfers, e.EndMarks, e.PreEnd, e.Post)
 	for _, mk := range e.EndMarks {
 		if mk.Type == "cancel-order" {
 			m.endings["timeout-cancel"]++
@@ -499,4 +509,54 @@ func (m *C06) Block(w *world.World, e *world.BlockEvent) {
 		w.Violate("C06", "did-escrow-short", fmt.Sprintf("height %d: did escrow holds %s but balances held for DIDs total %s", h, s.BalOf(mon.AddrDid), didNeed), nil)
 	}
 	w.Case("c06:orders=%d,live=%d,renewq=%v,debts=%d,rewards=%v,didbal=%v", bucket(len(s.Orders)), bucket(len(s.Shards)), anyRenewed(s), bucket(len(s.Debts)), s.PoolFound && s.Pool.TotalReward.Amount.IsPositive(), len(s.DidBal) > 0)
+}
+
+// refundRecipients attributes every refund (escrow -> account) of an event list to the order it settles — the
+// next terminate-order / cancel-order marker in emission order, or, for a replica reduction in an end block, an
+// order whose replica count dropped — and checks that it went to that order's payer or its owner's payment address.
+func (m *C04) refundRecipients(w *world.World, where string, trs []mon.Transfer, marks []mon.Marker, pre, post *mon.State) {
+	for _, t := range trs {
+		from := mon.ModuleAddrs[t.From]
+		if (from != "order" && from != "market") || t.To == "" || mon.ModuleAddrs[t.To] != "" {
+			continue
+		}
+		var orderID uint64
+		found := false
+		for _, mk := range marks {
+			if mk.Seq > t.Seq && (mk.Type == "terminate-order" || mk.Type == "cancel-order") {
+				if v, err := strconv.ParseUint(mk.Attrs["order-id"], 10, 64); err == nil {
+					orderID, found = v, true
+				}
+				break
+			}
+		}
+		var okTo []string
+		if found {
+			if o, ok := pre.Orders[orderID]; ok {
+				okTo = append(okTo, m.payerOf[orderID], pre.PayAddr[o.Owner])
+			}
+		} else {
+			// replica reduction: any order whose replica count dropped in this step
+			for id, o := range pre.Orders {
+				if p, ok := post.Orders[id]; ok && p.Replica < o.Replica {
+					okTo = append(okTo, m.payerOf[id], pre.PayAddr[o.Owner])
+					found = true
+				}
+			}
+		}
+		m.checks++
+		if !found {
+			w.Violate("C04", "refund-without-settled-order", fmt.Sprintf("%s: %s left the %s escrow for %s but no order was terminated, cancelled or reduced", where, t.Amount, from, shortAddr(t.To)), nil)
+			continue
+		}
+		good := false
+		for _, a := range okTo {
+			if a != "" && a == t.To {
+				good = true
+			}
+		}
+		if !good {
+			w.Violate("C04", "refund-to-wrong-party", fmt.Sprintf("%s: the refund of %s for order %d went to %s, which is neither the account that paid for it nor its owner's payment address", where, t.Amount, orderID, shortAddr(t.To)), nil)
+		}
+	}
 }
